@@ -544,6 +544,11 @@ def sub_cases(case: dict[str, Any], stats: Stats) -> Iterator[dict[str, Any]]:
             # one execution per edge bank of the unmapped ranges of this mapping
             for bank in UNMAPPED_BANKS.get(prog.mapping, []):
                 yield dict(base, spec=specs[rng.choice(ENTRIES)], insert={"class": klass, "slot": s0, "addr": (bank << 16) | 0x8000}, knobs={})
+        if case.get("padded"):
+            # every run scans > 64 KiB of text: one file entry point per class, at the last slot (after the
+            # padding); the full product is what the unpadded base programs are for
+            yield dict(base, spec=specs[rng.choice(FILE_ENTRIES)], insert={"class": klass, "slot": ok_slots[-1]}, knobs={})
+            continue
         for e in ENTRIES:
             yield dict(base, spec=specs[e], insert={"class": klass, "slot": s0}, knobs={}, repeat=rng.random() < 0.25, odd_format=rng.randrange(len(ODD_FORMATS)) if e == "cli" and rng.random() < 0.3 else None)
         others = [s for s in ok_slots if s is not s0]
@@ -560,6 +565,8 @@ def sub_cases(case: dict[str, Any], stats: Stats) -> Iterator[dict[str, Any]]:
             others = keep + rest[: max(0, SLOTS_PER_CLASS - len(keep))]
         for s in others:
             yield dict(base, spec=specs[rng.choice(ENTRIES)], insert={"class": klass, "slot": s}, knobs=benign_knobs(krng) if rng.random() < 0.3 else {}, repeat=rng.random() < 0.15)
+    if case.get("padded"):
+        return
     # (2a) the same errors at the bottom of deep block nesting (65, 150 levels)
     nestable = [k for k in ERROR_CLASSES if not ERROR_CLASSES[k].get("c19_only") and not ERROR_CLASSES[k].get("top_only") and not ERROR_CLASSES[k].get("last_only") and k not in ("too_few_macro_args", "undefined_macro_argument", "undefined_macro_argument_unused", "macro_operand_too_wide_on_second_application", "macro_immediate_too_wide_on_second_application", "unclosed_brace", "unclosed_macro", "stray_closing_brace", "unmapped_bank", "branch_out_of_range", "branch_plus_128", "branch_minus_129")]
     top_slots = [s for s in slots if s["ctx"] in ("top", "included_file") and s["assembled"]]
